@@ -38,6 +38,10 @@ def rgba(c):
     return RGBA[c]
 
 
+# two colours in all, but a module type on the "wrong" side: a two-colour shortcut over dark / light must not be taken
+CROSSED = ({'quiet_zone': '#000'}, {'finder_dark': '#fff', 'finder_light': '#000'}, {'separator': 'black'}, {'dark_module': 'white', 'timing_light': '#000'},
+           {'finder_dark': '#fff'}, {'timing_light': '#000'})
+
 CONFIGS = [((21, 21), 1, None), ((21, 21), 2, 0), ((11, 11), 3, None), ((11, 11), 2.7, 1), ((13, 13), 1, 3), ((11, 11), 8, 1)]      # the last one is 104 = 13 * 8 pixels wide
 
 
@@ -46,7 +50,7 @@ def _rows_asked(rs, scale, border, which='matrix_iter'):
     if len(rs.calls) != 1:
         return f'{len(rs.calls)} row sources opened'
     name, s, b, same = rs.calls[0]
-    if name != which:
+    if name not in ('matrix_iter', 'matrix_iter_verbose'):        # which of the two is the serialiser's business: the picture decides
         return f'rows come from {name}'
     if not same:
         return 'rows of another matrix'
@@ -197,7 +201,7 @@ def r8(fx):
                 why = str(ex)
             yield ob(f'PAM dark={dark!r} light={light!r}', not why, fn, got=why or f'{want_h}, the symbol', want=f'{want_h}, the symbol')
     fn = fx.fn('writers', 'write_ppm')
-    for kw in ({}, {'dark': 'red', 'light': 'yellow'}, {'finder_dark': 'blue', 'data_light': '#eee', 'quiet_zone': 'aliceblue'}, {'dark': (0, 0, 139), 'timing_dark': (10, 20, 30)}):
+    for kw in ({}, {'dark': 'red', 'light': 'yellow'}, {'finder_dark': 'blue', 'data_light': '#eee', 'quiet_zone': 'aliceblue'}, {'dark': (0, 0, 139), 'timing_dark': (10, 20, 30)}) + CROSSED:
         for size, scale, border in (((21, 21), 1, None), ((11, 11), 2.7, 1)):
             try:
                 m, rec, rs, _ = _run(fx, it, 'write_ppm', size, scale, border, kw=kw, typed=_typed(fx, size, kw))
@@ -255,6 +259,8 @@ def r4(fx):
             yield _png_ob(fx, it, fn, tag, size, scale, border, kw)
     for kw in ({'dark': 'red', 'light': 'yellow'}, {'light': None}, {'dark': (255, 0, 0, 128)}, {'finder_dark': 'blue', 'data_light': None}):
         yield _png_ob(fx, it, fn, f'dpi=300 {kw}', (11, 11), 2, 1, dict(kw, dpi=300))
+    for kw in CROSSED:
+        yield _png_ob(fx, it, fn, f'{kw} size=21 scale=1 border=None', (21, 21), 1, None, dict(kw))
     m, rec, rs, zs = _run(fx, it, 'write_png', (11, 11), 1, 0, kw={'dpi': 300, 'compresslevel': 3}, typed=_typed(fx, (11, 11), {}))
     try:
         png = render.decode_png(rec.data())
